@@ -45,6 +45,11 @@ CHECKS = {
    "Every interleaving of acquire/renew/complete/fail/scavenge by 2 nodes (3 in thorough, preemption-bounded) combined with every placement of <=2 (3) wall-clock jumps (+150 s, +301 s); invariants at every quiescent state: no lease-file version holds two live leases sharing a chunk, no two holders believe they hold a shared chunk, a reclaimed holder's renew is refused, abandoned leases are acquirable after expiry; also on the in-memory client at call granularity.",
    "all nodes read the same interposed wall clock; InMemory conditional PUT is atomic; holder belief after renew = wall clock at the renew call + 300 s (what the caller can know)",
    "DESIGN.md section 5 C08"),
+ "C14": (ENGINE_F, "fault_enumeration",
+   "exhaustive fault/crash-point enumeration of the real ShardSplitter under the controlled scheduler: every request of the split x {error before effect, error after effect, crash}, followed by the documented recovery; thorough nests a second interruption",
+   "Real ShardSplitter over real Parquet chunks (rows below, at, above the split point) on both catalog back ends: for every object-store / catalog request of execute_split_with_monitoring and each mode in {fail-before, fail-after, crash}: recovery (resume_split up to 4 times on a fresh splitter, fresh split when nothing was recorded) must finish, and the final state must equal the uninterrupted one: two Active shards partitioning the range at the split point, old shard PendingDeletion, no split state / progress object, every old row in exactly one new shard on its side (split point to the upper shard) exactly once, no old-shard delete before the cut-over completed.",
+   "crash-after-request-i equals crash-before-request-i+1 (memory is lost); sleeps on virtual time; new shard ids are taken from the last progress object written",
+   "DESIGN.md section 5 C14"),
  "C20": (ENGINE_B, "model_checking",
    "explicit enumeration of every initial catalog x configuration of a bounded family, each driven through repeated real compaction cycles with the invariant checked between cycles",
    "All catalogs with 0..3/2/2/1 (thorough 0..4/3/4/3) chunks at L0 hour A / L0 hour B / L1 / L2 x merge threshold {2,3} x level target size {1 B, ~2 chunks, ~100 chunks} x max_levels {2,4} x both back ends: a fixed point is reached within 8 cycles, candidate groups offered before each cycle are pairwise disjoint and level-homogeneous, groups actually merged (leases) are disjoint and of the lease's level, every level equals max(replaced)+1 or stays, rows conserved.",
